@@ -231,7 +231,7 @@ func init() {
 		ID:    "C09",
 		Level: "model_checking",
 		Rule: "for every accepted program of the core corpus K and the scaled families S (string / identifier / block-name lengths around 94, 240/241, 2287/2288, 4096, 67823/67824; constant pools of 240..242; offsets in every varint class; boundary floats) and for program names of length 0..67824 and names holding %, NUL, newline, non-ASCII and invalid UTF-8 bytes: " +
-			"Dump, then LoadProg under every read delivery of a bounded family (whole, 1 byte/read, data+EOF, halves, every fixed size 2..17 and 4095..4097, every partition with <=k cut points: k=1 for dumps <=6000 B, k=2 for <=150 B (thorough <=400 B), k=3 for <=48 B); " +
+			"Dump, then LoadProg under every read delivery of a bounded family (whole, 1 byte/read, data+EOF, halves, every fixed size 2..17 and 4095..4097, every partition with <=k cut points: k=1 for dumps <=6000 B, k=2 for <=150 B (thorough <=900 B), k=3 for <=48 B (thorough <=110 B)); " +
 			"oracle: nil errors, identical disassembly, identical execution (output, blocks, binding, warnings, error text incl. position), byte-identical re-dump, and the independent decoder recovers the name and a line table equal to the newline offsets of the source. A case is (program, name); counters.loads counts LoadProg calls.",
 		Subs:           []*fw.Sub{subC09},
 		BudgetQuick:    100,
@@ -246,10 +246,10 @@ func init() {
 				n := len(d)
 				two := 150
 				if c.Thorough() {
-					two = 400
+					two = 900
 				}
 				switch {
-				case n <= 48:
+				case n <= 48 || (c.Thorough() && n <= 110):
 					return 3
 				case n <= two:
 					return 2
